@@ -1,6 +1,6 @@
 (* C04 — every registered system is in the executed layout exactly once (plan level).
    Statements only; proofs are in PlanProps.v. *)
-From Shred Require Import Base SrcParams Plan PlanObs PlanInv PlanLoc PlanBuild PlanProps PlanLemmas Exec ExecProps ExecPlan BatchProps OracleProps.
+From Shred Require Import Base SrcParams Plan PlanObs PlanInv PlanLoc PlanBuild PlanProps PlanLemmas Exec ExecProps ExecPlan BatchProps OracleProps ExecObs TraceOracles ExecOracles.
 From Coq Require Import Permutation.
 
 (* For registration programs of ANY length: the flattened executed layout (the boxed
@@ -59,6 +59,13 @@ Theorem C04_oracle_exec_perm_holds_on_model_layouts :
   forall rs b, plan rs = Ok b -> Forall reg_time_ok1 rs -> o_exec_perm rs (layout_tags b) = true.
 Proof. exact o_exec_perm_on_model. Qed.
 Print Assumptions C04_oracle_exec_perm_holds_on_model_layouts.
+
+(* the run-time oracle `once` holds on every model trace *)
+Theorem C04_oracle_once_holds_on_every_model_trace :
+  forall rs b t, plan rs = Ok b -> Forall reg_time_ok1 rs -> NoDup (sys_tags rs ++ tl_tags rs) ->
+  traces_disp (layout_tags b) (b_tl b) t -> o_once (sys_tags rs ++ tl_tags rs) t = true.
+Proof. exact once_on_model_traces. Qed.
+Print Assumptions C04_oracle_once_holds_on_every_model_trace.
 
 Example C04_example :
   let rs := [RSys 1 [97] [] [8] [] 3%Z; RSys 2 [98] [] [] [9] 1%Z; RSys 3 [] [] [9] [] 2%Z; RBarrier;
